@@ -21,7 +21,7 @@ from ..spec import M, S, T, build
 from .c01 import cands, mk_machine, valuations, SENT_EVENTS
 
 PID = "C13"
-STYLES = ("send", "method", "events_item", "allowed_item", "bound", "mixin")
+STYLES = ("send", "method", "events_item", "allowed_item", "bound", "mixin", "foreign")
 
 
 def machines(tier):
@@ -59,6 +59,8 @@ def explore(res, cs, tier):
             pairs = {}
             for style in STYLES:
                 if style == "mixin" and (cfg.allow or not cfg.rtc or cfg.driver == "inloop"):
+                    continue
+                if style == "foreign" and cfg.driver == "inloop":
                     continue
                 p = Pair(built, cfg)
                 p.impl.mixin = (style == "mixin")
@@ -118,7 +120,8 @@ def probe_machine(asyn):
              provided=tuple(prov), listeners=("L1",))
 
 
-EXTRA_NAMES = ("", " ", "__initial__", "go ", " go", "Go", "g", "go_", "goback", "back go_back",
+EXTRA_NAMES = ("go.now", "go.", ".go", "finish.x", "back.go_back", "go!", "go*", "go,back",
+               "", " ", "__initial__", "go ", " go", "Go", "g", "go_", "goback", "back go_back",
                "go back", "model", "state", "send", "_engine", "current_state", "states", "events",
                "allowed_events", "__class__", "__init__", "__dict__", "add_listener", "_graph",
                "activate_initial_state", "bind_events_to", "start_value", "A", "B", "C", "name")
